@@ -111,7 +111,11 @@ def stale_count(facts):
             key = "bloom_filter_alloc::%s:count-read#%d" % (fn["name"], idx[0])
             idx[0] += 1
             ok = None
-            # (ii) guarded by the dirty flag
+            # (ii) the dirty flag is known to be clear where the count is read (nested if, else branch, && / ?:, guard clause alike)
+            for lit in reach(fn["body"], n):
+                lit = strip(lit)
+                if lit.get("k") == "Un" and lit.get("op") == "!" and is_this_field(lit["e"], ("is_dirty_",)):
+                    ok = "read where `!is_dirty_` is known to hold"
             chain = list(parents) + [n]
             for i, p in enumerate(chain[:-1]):
                 nxt = chain[i + 1]
@@ -145,6 +149,9 @@ def stale_count(facts):
                     walk(s, r)
                     if ref[0] and s.get("k") in ("Expr", "Decl"):
                         ok = "dominated by get_bits_used() (recount if dirty)"
+                    # an unconditional recount: `num_bits_set_ = ...;` as a statement of its own before the read
+                    if s.get("k") == "Expr" and isinstance(strip(s.get("e")), dict) and strip(s["e"]).get("k") == "Assign" and strip(s["e"]).get("op") == "=" and is_this_field(strip(s["e"])["l"], ("num_bits_set_",)):
+                        ok = "dominated by an unconditional recount"
                     # the refresher's own idiom: if (is_dirty_) { num_bits_set_ = count...; is_dirty_ = false; }
                     if s.get("k") == "If" and is_this_field(s["c"], ("is_dirty_",)) and not s.get("e"):
                         w = [False]
@@ -179,13 +186,15 @@ def index_agreement(facts):
         walk(fn["body"], lambda n: loops.append(n) if n.get("k") == "For" else None)
         if not loops:
             continue
-        L = loops[0]
+        import semantics
+        from astu import single_assignment_locals
+        getters = semantics.trivial_getters(fns)
+        L = semantics.degetter(loops[0], getters)
         init = txt(L["init"]["vars"][0]["init"]) if L.get("init") and L["init"].get("k") == "Decl" else "?"
         cond = txt(L["c"])
         hidx = []
         walk(L["b"], lambda n: [hidx.append(txt(v["init"])) for v in n.get("vars", []) if v.get("init") is not None and "%" in txt(v["init"])] if n.get("k") == "Decl" else None)
-        inl = {}
-        walk(fn["body"], lambda n: [inl.__setitem__(v["d"], v["init"]) for v in n.get("vars", []) if v.get("init") is not None and v.get("const")] if n.get("k") == "Decl" else None)
+        inl = {d: semantics.degetter(v, getters) for d, v in single_assignment_locals(fn).items() if d != (L["init"]["vars"][0].get("d") if L.get("init") and L["init"].get("k") == "Decl" else None)}
         hidx2 = []
         walk(L["b"], lambda n: [hidx2.append(txt(v["init"], inl)) for v in n.get("vars", []) if v.get("init") is not None and "%" in txt(v["init"])] if n.get("k") == "Decl" else None)
         info[fn["name"]] = (fn, init, cond, (hidx2 or ["?"])[0])
@@ -227,14 +236,34 @@ def compat(facts):
     # is_compatible compares seed, num_hashes and capacity
     for pat, fn in sorted(bf.items()):
         if fn["name"] == "is_compatible":
-            t = txt(stmts_of(fn["body"])[0].get("e")) if stmts_of(fn["body"]) else ""
-            need = ["seed_", "num_hashes_", "get_capacity()"]
-            miss = [x for x in need if t.count(x) < 2]
+            import semantics
+            from astu import single_assignment_locals
+            getters = semantics.trivial_getters(fns)
+            other_d = fn["params"][0]["d"] if fn.get("params") else None
+            need = ["seed_", "num_hashes_", "capacity_bits_"]
             key = "bloom_filter_alloc::is_compatible:fields"
-            if not miss and "||" not in t:
-                out.append(ob("bloom.compat", key, fn["pat"], "discharged", "compares seed, number of hashes and capacity", fn["qname"]))
+
+            def mk_atom(vals):
+                def atom(n):
+                    if n.get("k") == "Bin" and n.get("op") in ("==", "!="):
+                        a, b2 = semantics.field_of(n["l"], getters, other_d), semantics.field_of(n["r"], getters, other_d)
+                        if a and b2 and a[0] != b2[0] and a[1] == b2[1] and a[1] in vals:
+                            return vals[a[1]] if n["op"] == "==" else (not vals[a[1]])
+                    return None
+                return atom
+            ok = True
+            for x in (True, False):
+                for y in (True, False):
+                    for z in (True, False):
+                        v = semantics.bool_fn_value(fn, mk_atom(dict(zip(need, (x, y, z)))), single_assignment_locals(fn))
+                        if v is None or v != (x and y and z):
+                            ok = False
+            if ok:
+                out.append(ob("bloom.compat", key, fn["pat"], "discharged", "true exactly when seed, number of hashes and capacity agree (truth table over the three equalities)", fn["qname"]))
             else:
-                out.append(ob("bloom.compat", key, fn["pat"], "violated", "is_compatible does not compare %s on both operands (%s)" % (miss, t), fn["qname"]))
+                rets = []
+                walk(fn["body"], lambda n: rets.append(txt(n["e"])) if n.get("k") == "Return" and n.get("e") is not None else None)
+                out.append(ob("bloom.compat", key, fn["pat"], "violated", "is_compatible is not `seed, number of hashes and capacity all agree` (%s): filters with different bit positions for one item would be combined bitwise" % "; ".join(rets)[:160], fn["qname"]))
     return out
 
 
